@@ -127,11 +127,11 @@ def verify_function(contract, registry, label_prefix="", feas_timeout_ms=500):
                 return ("return", result)
             allowed = [(exc, cond) for exc, cond in contract.raises if exc_isa(raised.cls, exc)]
             if not allowed:
-                eng.oblige("safe@" + raised.cls, f"unexpected@L{getattr(raised.node, 'lineno', 0)}", False, raised.node,
+                eng.oblige("safe@" + raised.cls, f"unexpected@{eng.site(raised.node)}", False, raised.node,
                            note="an exception the contract does not allow escapes on this path")
                 return ("raise", raised.cls)
             for exc, cond in allowed:
-                eng.oblige("raises.sound", f"{exc}@L{getattr(raised.node, 'lineno', 0)}", eng.spec_eval(cond, entry, old_env=entry), raised.node)
+                eng.oblige("raises.sound", f"{exc}@{eng.site(raised.node)}", eng.spec_eval(cond, entry, old_env=entry), raised.node)
             return ("raise", raised.cls)
 
         done = eng.explore(run)
